@@ -67,52 +67,6 @@ func OpenReader(r io.Reader) (*Reader, error) {
 	return reader, nil
 }
 
-// maxNestingDepth bounds how deeply elements may be nested. Tree construction
-// in golang.org/x/net/html is quadratic in the nesting depth (20000 nested
-// <ul><li> - 160 KB - take about ten seconds), so far deeper nesting than any
-// real page uses is refused up front.
-const maxNestingDepth = 2000
-
-// checkNestingDepth makes a linear pass over the tags and fails when more than
-// maxNestingDepth elements are open at once. Void elements and elements whose
-// end tag is optional (p, li, td, ...) are not counted: consecutive ones are
-// siblings, not nested, so long documents that never close them stay readable.
-func checkNestingDepth(data []byte) error {
-	z := html.NewTokenizer(bytes.NewReader(data))
-	depth := 0
-	for {
-		switch z.Next() {
-		case html.ErrorToken:
-			return nil
-		case html.StartTagToken:
-			name, _ := z.TagName()
-			if countsForNesting(string(name)) {
-				depth++
-				if depth > maxNestingDepth {
-					return fmt.Errorf("elements nested deeper than %d levels", maxNestingDepth)
-				}
-			}
-		case html.EndTagToken:
-			name, _ := z.TagName()
-			if countsForNesting(string(name)) && depth > 0 {
-				depth--
-			}
-		}
-	}
-}
-
-// countsForNesting reports whether an open tag of this name stays open until
-// its own end tag.
-func countsForNesting(name string) bool {
-	switch name {
-	case "area", "base", "br", "col", "embed", "hr", "img", "input", "link", "meta", "param", "source", "track", "wbr",
-		"p", "li", "dd", "dt", "tr", "td", "th", "thead", "tbody", "tfoot", "colgroup", "caption", "option", "optgroup",
-		"rb", "rp", "rt", "rtc", "html", "head", "body":
-		return false
-	}
-	return true
-}
-
 // Close releases resources associated with the Reader.
 func (r *Reader) Close() error {
 	// Nothing to close for HTML (no file handles kept)
